@@ -121,7 +121,7 @@ class C17(Check):
                 reads += sim.neutral(rl, 20, f"n{c}")
             if w.spec.pseudo:
                 # a few reads with a deletion in the pseudogene, i.e. outside the RefSeq-mapped part
-                p0 = worlds.OFFS[build][1] - 1
+                p0 = w.offs(build)[1] - 1
                 for k in range(6):
                     st_ = p0 + 120 + 7 * k
                     reads.append((f"pdel{k}", st_, sim.G[st_:st_ + 30] + sim.G[st_ + 33:st_ + 63], "30M3D30M"))
